@@ -251,7 +251,7 @@ CHECKS = {
         "rule": ("kinds group (timelines: 1-5 registrations, 0-12 trigger events incl. concurrent bursts, one stop incl. parent cancel/deadline), stop-storm (goroutines keep calling Do while the group is stopped, 5-30 rounds per case), "
                  "trigger-first-call (racing first calls of a trigger function, then triggers during runs), trigger-storm (a trigger 0-256 busy iterations after a run has finished, 1000-5000 rounds per case, decided at quiescence; or 3-4 callers pacing themselves around the end of every run: runs never overlap), pot-old-timers (PeriodicOrTrigger under asynctimerchan=1 on the real clock), pot-trigger-real (real clock, interval 1 h: the second trigger of every round is aimed at the end of the run the first one started; a run begins after it within 3 s). group plans: non-trivial = a trigger call landed while its function was running, or a registration raced with the stop; distinct = distinct plan JSON; R=3/10"),
         "assumptions": ["testing/synctest", "rapid v1.3.0; go1.26.8"],
-        "jobs": [{"pkg": "c17old", "kinds": ["pot-old-timers", "pot-trigger-real", "stop-reentrant", "group-dropped"], "scale_thorough": 4, "shards_thorough": 4},
+        "jobs": [{"pkg": "c17old", "kinds": ["pot-old-timers", "pot-trigger-real", "stop-reentrant", "group-dropped", "group-long-lived"], "scale_thorough": 4, "shards_thorough": 4},
                  {"pkg": "c17group", "kinds": ["group", "stop-storm", "trigger-first-call", "trigger-storm", "group-reentrant"], "scale_thorough": 3, "shards_thorough": 16, "replay_reps": 30},
                  {"pkg": "c17group", "goarch": "386", "kinds": ["group", "stop-storm", "trigger-first-call", "trigger-storm"], "scale_quick": 0.1, "scale_thorough": 1, "shards_thorough": 2},
                  {"pkg": "c17group", "race": True, "kinds": ["group", "stop-storm", "trigger-first-call", "trigger-storm", "group-reentrant"], "scale_quick": 0.15, "scale_thorough": 1, "shards_thorough": 4, "replay_reps": 20}],
@@ -304,7 +304,7 @@ RULE_ADDENDA = {
     "C14": " Kind map-real-clock (own process, real goroutines, no bubble): MapIterator and MapStream with spinning f (later items finish first), source / f failures, early Close: order, exactly-once, gauge bound, error provenance, ownership, 10 s limit (non-trivial = n > parallelism >= 2). Also: 'lockstep' sources that only produce once the consumer has taken the previous result (bubble, and kind map-lockstep on the real clock), contexts that are already done at construction, f errors with a value attached. Also runs for GOARCH=386.",
     "C15": " Heap elements may hold pointers; setups include a big deque drained to a quarter; one call past the end may precede the mid ops; a second iterator may be open.",
     "C16": " Kind cond-real-storm (own process, real clock, no bubble): per round a waiter enters Wait while a Broadcast made without the lock is aimed at that instant, then - once the lock can be taken, i.e. the waiter has released it - one Signal; 0-4 further goroutines call Signal / Broadcast without the lock; everybody is through within 10 s (always non-trivial). The cond may be stored by value after construction ('by_value'); broadcast-storm variants with a shared RLocker and bursts of simultaneous Signals. Also runs for GOARCH=386.",
-    "C17": " Kind group-reentrant: a group built inside another group's function on the context it was handed (1-3 levels), stopped there and then offered work of every kind (none of it runs; the outer group goes on and its StopAndWait returns); a Trigger / PeriodicOrTrigger function that triggers itself at the end of every run (back to back, no overlap, StopAndWait returns, nothing runs afterwards). Real-clock kinds in c17old: pot-old-timers, pot-trigger-real (a trigger aimed at the end of a run), stop-reentrant (a group function that calls into the group while StopAndWait waits), group-dropped (a Group nobody references keeps running until stopped, across GCs). Also runs for GOARCH=386.",
+    "C17": " Kind group-reentrant: a group built inside another group's function on the context it was handed (1-3 levels), stopped there and then offered work of every kind (none of it runs; the outer group goes on and its StopAndWait returns); a Trigger / PeriodicOrTrigger function that triggers itself at the end of every run (back to back, no overlap, StopAndWait returns, nothing runs afterwards). Real-clock kinds in c17old: pot-old-timers, pot-trigger-real (a trigger aimed at the end of a run), stop-reentrant (a group function that calls into the group while StopAndWait waits), group-dropped (a Group nobody references keeps running until stopped, across GCs), group-long-lived (one Group, 131075-300000 short functions through Do with 1-8 in flight: all of them run, StopAndWait returns). Also runs for GOARCH=386.",
     "C18": " sync-storm modes: loadorstore, loadanddelete, nomatch (a failing CompareAndDelete/CompareAndSwap is invisible to concurrent observers), watchable with 1-3 setters; future waiters that arrive late with deadline contexts. Also runs for GOARCH=386.",
     "C19": " Also: inputs of thousands of items (strategy switches), stateful callbacks (call counts), huge arguments, sampling over populations up to MaxInt64/2, kind sample-race (package-level xrand functions from several goroutines under the race detector).",
     "C20": " Also: periods with sub-millisecond parts and near MaxInt64, kind ticker-reset-storm (real clock: up to 16 goroutines reset one ticker hundreds of times, then to one hour: no tick stamped after the last switch), kind ticker-stop-storm (real clock: 20 us tickers stopped at swept moments by 2-8 goroutines: no tick stamped after Stop returned).",
